@@ -19,6 +19,8 @@ def run(prog, chk, tier):
                        "statement must exist as a guard with the right relational normal form, raise on violation, and structurally dominate acceptance.")
     if bf3.rule_reader_layout(m, chk, "C05"):
         bf3.reader_rules(m, chk, "C05")
+        # "the returned content is what those fields say": a component is decrypted exactly when its ENC tag holds the writer's encoding of SESSIONKEY
+        bf3.tag_compare_rules(m, chk, "C05")
     rule_exact_reads(prog, chk, "C05")
     stackrt.guarded(chk, "C05.tamper-scenarios", stacktamper.tamper_rules, prog, chk, "C05", tier)
     chk.assume("cmac(data, key, iv) is the MAC of the documented layout (decided by C03/C16 clauses)")
